@@ -635,6 +635,7 @@ def rule_breakers(draw):
     kind = draw(st.sampled_from(
         ['break', 'break', 'return', 'assign-macro', 'redefine-macro',
          'redefine-routine', 'redefine-across-kinds', 'redefine-builtin',
+         'power-with-zone',
          'undefined-name',
          'nested-routine', 'missing-end', 'unbalanced', 'bad-pattern',
          'undefined-call']))
@@ -686,6 +687,16 @@ def rule_breakers(draw):
             ('define QQ begin wait end', 'define QQ 5')]))
         return (first + '\n' + text + '\n' + second,
                 'name defined twice (macro and routine)')
+    if kind == 'power-with-zone':
+        # on / off take no zone, row or column, wherever they are written
+        command = draw(st.sampled_from(['on "z" zone 1', 'off "z" zone 0 2',
+                                        'on "y" row 1', 'off "y" column 0 1']))
+        where = draw(st.sampled_from([
+            '{}', 'repeat 2 begin {} end', 'define qq_r begin {} end qq_r',
+            'set "y" begin {} end', 'set "y" begin stage row 1 {} end',
+            'define qq_r begin {} end set "y" begin qq_r end']))
+        return (text + '\n' + where.format(command),
+                'zone / row / column with a power command')
     if kind == 'redefine-builtin':
         # the built-in functions are routines that are already defined,
         # whatever was done to the name in between
